@@ -1,7 +1,7 @@
 #!/usr/bin/env python3
 """Confirm a seeded change produced by a sub-agent and file it under /verif/seeded/<id>-<k>/.
 
-usage: confirm_seed.py <PROP> <k>      (reads /tmp/seed_out_<PROP>/change<k>.diff, demo<k>/, notes<k>.md; uses worktree /tmp/seed_<PROP>)
+usage: confirm_seed.py <PROP> <k> [<dst_k>]      (reads /tmp/seed_out_<PROP>/change<k>.diff, demo<k>/, notes<k>.md; uses worktree /tmp/seed_<PROP>)
 
 Steps (all in the agent's scratch worktree, never in /repo): patch applies to a clean tree; workspace builds and the existing
 test suite passes with it; the demo FAILS with it; after `git checkout -- .` the demo PASSES.
@@ -9,11 +9,12 @@ test suite passes with it; the demo FAILS with it; after `git checkout -- .` the
 import json, os, shutil, subprocess, sys, time
 
 prop, k = sys.argv[1], sys.argv[2]
+dst_k = sys.argv[3] if len(sys.argv) > 3 else k   # file under seeded/<PROP>-<dst_k> (a second round of agents reuses change1/change2)
 wt = "/tmp/seed_%s" % prop
 out = "/tmp/seed_out_%s" % prop
 diff = "%s/change%s.diff" % (out, k)
 demo = "%s/demo%s" % (out, k)
-dst = "/verif/seeded/%s-%s" % (prop, k)
+dst = "/verif/seeded/%s-%s" % (prop, dst_k)
 env = dict(os.environ, CARGO_NET_OFFLINE="true")
 
 def run(cmd, cwd, timeout=3600):
